@@ -224,4 +224,82 @@ theorem steps_JX (dss : List (List Call)) (hx : ∀ ds ∈ dss, ∀ d ∈ ds, Pl
     rw [this, List.filter_append, ← List.append_assoc]
     exact h2
 
+/-! ### the external calls of several steps (extension on) -/
+/-- the pending externals of each step with their last values, step after step: (atom, value) -/
+def stepRegs : T → List (List Call) → List (Nat × Nat)
+  | _, [] => []
+  | t, ds :: r => ((t.run ds).regs.map (fun a => (a, (t.run ds).val a))) ++ stepRegs (t.run ds).next r
+
+theorem run_frameXJ {c : CS} {P defs} (hj : J c P defs) (ds : List Call) (hx : ∀ d ∈ ds, PlainOk d) :
+    extCalls (ds.foldl CS.apply c).out = extCalls c.out := by
+  induction ds generalizing c P defs with
+  | nil => rfl
+  | cons d r ih =>
+    obtain ⟨defs1, h1⟩ := apply_plainJ hj d (hx d (by simp))
+    simp only [List.foldl_cons]
+    rw [ih h1 (fun e he => hx e (by simp [he])), apply_frameX c hj.nofail d (hx d (by simp))]
+
+/-- the external calls a step adds, with the images under ANY map that agrees with the atoms mapped at the end of the step -/
+theorem step_extCalls {c : CS} {P defs} {t : T} (hj : J c P defs) (hxi : XI c t) (ds : List Call) (hx : ∀ d ∈ ds, PlainOk d) (he : c.ext = true)
+    (m : Nat → Nat) (hm : Agree (stepRun c ds) m) :
+    extCalls (stepRun c ds).out = extCalls c.out ++ (t.run ds).regs.map (fun a => (m a, (t.run ds).val a)) := by
+  have hb : J (c.apply .beginStep) P defs := by rw [apply_begin _ hj.nofail]; exact hj.emit _ rfl
+  have xb : XI (c.apply .beginStep) t := by rw [apply_begin _ hj.nofail]; exact hxi.emit _
+  obtain ⟨defs', h1, x1⟩ := run_JX hb xb ds hx
+  have hext : (ds.foldl CS.apply (c.apply .beginStep)).ext = true := by
+    have e := stepRun_ext hj hxi ds hx
+    unfold stepRun at e
+    rw [apply_end _ h1.nofail] at e
+    have : (ds.foldl CS.apply (c.apply .beginStep)).flush.ext = (ds.foldl CS.apply (c.apply .beginStep)).ext := flush_ext _ x1.m h1.inv
+    have e' : (ds.foldl CS.apply (c.apply .beginStep)).flush.ext = c.ext := e
+    rw [← this, e', he]
+  have h0 : extCalls (ds.foldl CS.apply (c.apply .beginStep)).out = extCalls c.out := by
+    rw [run_frameXJ hb ds hx, apply_begin _ hj.nofail, emit_frameX _ _ rfl]
+  unfold stepRun at hm ⊢
+  rw [apply_end _ h1.nofail] at hm ⊢
+  rw [flush_extCalls_app _ hext x1.m h1.inv, h0, x1.r]
+  congr 1
+  apply List.map_congr_left
+  intro a ha
+  have hs1 : Steps (abs (ds.foldl CS.apply (c.apply .beginStep)).flushMinimize) (abs ((ds.foldl CS.apply (c.apply .beginStep)).flush.emit .endStep)) := by
+    have h := (flushExternal_steps (ds.foldl CS.apply (c.apply .beginStep)).flushMinimize).trans ((flushHeuristic_steps _).trans (flushSymbols_steps _))
+    exact h
+  have hi1 : Inv (abs (ds.foldl CS.apply (c.apply .beginStep)).flushMinimize) := steps_inv' (flushMinimize_steps _) h1.inv
+  have hag := agree_back hs1 hi1 hm
+  have hd1 : a ∈ domOf (ds.foldl CS.apply (c.apply .beginStep)).flushMinimize :=
+    dom_mono (flushMinimize_steps _) h1.inv a (x1.m a (x1.r ▸ ha))
+  rw [sm_agree _ hi1 _ hag a hd1, x1.v a]
+
+/-- **several steps, extension on**: the external calls of all steps, under one final map -/
+theorem steps_extCalls (dss : List (List Call)) (hx : ∀ ds ∈ dss, ∀ d ∈ ds, PlainOk d) {c : CS} {P defs} {t : T} (hj : J c P defs) (hxi : XI c t) (ht : t.regs = [])
+    (he : c.ext = true) (m : Nat → Nat) (hm : Agree (dss.foldl stepRun c) m) :
+    extCalls (dss.foldl stepRun c).out = extCalls c.out ++ (stepRegs t dss).map (fun p => (m p.1, p.2)) := by
+  induction dss generalizing c P defs t with
+  | nil => simp [stepRegs]
+  | cons ds r ih =>
+    have hx1 : ∀ d ∈ ds, PlainOk d := hx ds (by simp)
+    obtain ⟨defs1, h1, x1⟩ := step_JX hj hxi ht ds hx1 (Or.inr he)
+    have hext : (stepRun c ds).ext = true := (stepRun_ext hj hxi ds hx1).trans he
+    simp only [List.foldl_cons] at hm ⊢
+    have hxr : ∀ ds' ∈ r, ∀ d ∈ ds', PlainOk d := fun ds' h' => hx ds' (by simp [h'])
+    -- the later steps only extend the map
+    obtain ⟨defs2, t2, h2, _, _⟩ := steps_JX r hxr (c := stepRun c ds) h1 x1 rfl (Or.inr hext)
+    have hsteps : Steps (abs (stepRun c ds)) (abs (r.foldl stepRun (stepRun c ds))) := by
+      have : ∀ (l : List (List Call)) (c0 : CS), Steps (abs c0) (abs (l.foldl stepRun c0)) := by
+        intro l
+        induction l with
+        | nil => intro c0; exact .refl _
+        | cons d l ih2 =>
+          intro c0
+          simp only [List.foldl_cons]
+          refine Steps.trans ?_ (ih2 _)
+          unfold stepRun
+          exact (apply_steps _ _).trans ((convert_steps _ _).trans (apply_steps _ _))
+      exact this r _
+    have hm1 : Agree (stepRun c ds) m := agree_back hsteps h1.inv hm
+    have h1' : J (stepRun c ds) (P ++ (rulesOf ds).filter kept) defs1 := h1
+    have x1' : XI (stepRun c ds) (t.run ds).next := x1
+    rw [ih hxr h1' x1' rfl hext hm, step_extCalls hj hxi ds hx1 he m hm1]
+    simp [stepRegs, List.append_assoc, List.map_map, Function.comp]
+
 end PotasscoVerif.C02
